@@ -75,6 +75,15 @@ def jobs(tier):
                        union_struct=True, kind="bounded", canary=False,
                        functions=["vnadata_resize (size arithmetic)"],
                        bound="1x1x1 object resized to %d x %d x 1 (concrete)" % (n_, n_), timeout=200))
+    # vnadata_convert in place (N x N -> Zin reshapes the object to 1 x N): the result is well formed, in particular
+    # the vacated cells hold their initial values for the next resize (same jobs as C05, re-run under this id)
+    import C05
+    for j in C05.jobs("quick"):
+        if j.name.endswith("_inplace") and ("rows2_columns2" in j.name or "rows3_columns3" in j.name):
+            j.name = "convert_inplace." + j.name
+            j.canary = False
+            j.imported = True
+            J.append(j)
     return J
 
 
